@@ -100,7 +100,7 @@ def covers (prices : List DecCoin) (gas : Nat) (c : Coin) : Prop :=
 
 /-- verdict of the fee checker in the ante chain -/
 inductive Outcome where
-  | admit
+  | accept
   | refuse
   | panic   -- a Go panic inside the checker (converted to an error by the deferred `Recover` of `NewAnteHandler`)
   | notFeeTx
